@@ -93,6 +93,7 @@ def eval_case(case):
     texts = [str(x) for x in res]
     for a in sorted(amb):
         o.label('amb:' + a)
+    amb = set(amb) - {'truncated'}   # "incomplete groups ... contribute nothing": determined by the statement, asserted
     if not ae:
         for x in res:
             if not x.valid:
@@ -205,3 +206,6 @@ SUBS = [
         exhaustive_note='every list over the 16-symbol code alphabet up to the length bound'),
     Sub('lists_generated', eval_case, strategy=strat, quick=1500, thorough=25000),
 ]
+
+# thorough tier: atheris / libFuzzer campaigns (fuzz/target.py) with this sub-check's evaluate() as the oracle
+FUZZ = [dict(sub='lists_generated', runs=200000, shards=4, seeds=[b'\x00\x01\x08\x0b\x0c', b'\x05\x08\x0b\x01'])]
